@@ -6,6 +6,8 @@ import Driver.Shard
 import Driver.InterpSearch
 import Driver.Dedup
 import Driver.Singleflight
+import Driver.Session
+import Driver.Reconstruct
 open Xet.Drv
 
 def dispatch (blob : Blob) (line : String) : String :=
@@ -16,6 +18,8 @@ def dispatch (blob : Blob) (line : String) : String :=
     if cmd == "chunker" then handleChunker blob rest
     else if cmd.startsWith "hash" || cmd.startsWith "hex." then handleHash blob cmd rest
     else if cmd.startsWith "shard." then handleShard blob cmd rest
+    else if cmd.startsWith "sess." || cmd == "sha256" then handleSession blob cmd rest
+    else if cmd.startsWith "recon." then handleRecon blob cmd rest
     else if cmd.startsWith "sf." then handleSf blob cmd rest
     else if cmd.startsWith "dedup." then handleDedup blob cmd rest
     else if cmd.startsWith "search." then handleSearch blob cmd rest
